@@ -24,6 +24,7 @@ RULE = (
     "interpreter) on a 5^3 block with drawn rational fields and step; result must EQUAL the polynomial in the exact "
     "flux operator. Non-trivial: field and velocity non-constant and step*|u| >= 1e-3 so that the flux changes the field "
     "measurably; for RK3 additionally |A^3 w| > 0. Distinct = digest of case."
+    " Also zero steps, 17..50 planes along the outermost axis, pooled scratch buffers, and part fresh_process_generation_order (kernels generated in a new process after a drawn list of related generator calls)."
 )
 ASSUMPTIONS = [
     "velocity frozen during the step (as the kernels take it)",
